@@ -55,10 +55,11 @@ def _check(dec, chunks_expected, returned, log_events):
     return True
 
 
-@obligation(params=dict(w0=Int(0, 4), r0=Int(0, 3), gone=Bool(), t1=Int(0, 6), w1=Int(0, 5), size=Int(1, 3), tr=Int(0, 2),
+@obligation(params=dict(w0=Int(0, 3), r0=Int(0, 2), gone=Bool(), t1=Int(0, 4), w1=Int(0, 4), size=Int(1, 3), tr=Int(0, 2),
                         tmo=Int(0, 1), hold=Int(0, 2)),
-            tags={2: 'one os.read', 3: 'two reads joined in one call (pty)', 4: 'nothing read'}, timeout=400,
-            split=('tr',),
+            tags={2: 'one os.read', 3: 'two reads joined in one call (pty)', 4: 'nothing read'}, timeout=600,
+            split=('tr', 'hold'),
+            thorough=dict(params=dict(w0=Int(0, 4), r0=Int(0, 3), t1=Int(0, 6), w1=Int(0, 5)), timeout=2000),
             note='D1 for SpawnBase/fdspawn/pty read_nonblocking over the peer world (tr: 0 fd, 1 pty select, 2 pty poll)')
 def D1_fd_pty(w0, r0, gone, t1, w1, size, tr, tmo, hold=0):
     if not (r0 <= w0 <= w1):
